@@ -1565,11 +1565,33 @@ fn dirty_text() -> BoxedStrategy<String> {
 
 fn strat_dirty(t: Tier) -> BoxedStrategy<Case> {
     let dirty_formula = prop::sample::select(vec!["\"a\rb\"&A1", "\"a\r\nb\"", "\" lead\"&\"trail \"", "\"_x0041_\"", "A1+\n B2", "\"tab\there\""]).prop_map(|s| s.to_string());
-    (strat_dirty_base(t), prop::collection::vec((dirty_text(), prop::option::weighted(0.3, dirty_text())), 0..6), prop::collection::vec((1u32..4, 1u32..6, dirty_formula), 0..3))
-        .prop_map(|(mut case, texts, formulas)| {
+    let dirty_cell = (5u32..9, 1u32..9, 0u8..3, dirty_text(), dirty_text());
+    (
+        strat_dirty_base(t),
+        prop::collection::vec((dirty_text(), prop::option::weighted(0.3, dirty_text())), 0..6),
+        prop::collection::vec((1u32..4, 1u32..6, dirty_formula), 0..3),
+        prop::collection::vec(dirty_cell, 0..6),
+    )
+        .prop_map(|(mut case, texts, formulas, cells)| {
             if let Some(e) = case.extra.first_mut() {
                 for (col, row, f) in formulas {
                     e.cells.push(CellSpec { col, row, value: ValueSpec::Number(Num(1.0)), formula: Some(f) });
+                }
+                // the dirty alphabet in all three encodings of a text: shared string, rich
+                // runs, cached string result of a formula
+                for (col, row, kind, a, b) in cells {
+                    let (value, formula) = match kind {
+                        0 => (ValueSpec::Text(a), None),
+                        1 => (
+                            ValueSpec::Rich(vec![
+                                RunSpec { text: if a.is_empty() { "r".into() } else { a }, bold: true, italic: false, size: None, font_name: None },
+                                RunSpec { text: if b.is_empty() { "s".into() } else { b }, bold: false, italic: false, size: None, font_name: None },
+                            ]),
+                            None,
+                        ),
+                        _ => (ValueSpec::Text(a), Some("A1&B1".to_string())),
+                    };
+                    e.cells.push(CellSpec { col, row, value, formula });
                 }
             }
             // comments of the case get texts (and some authors) from the dirty alphabet
